@@ -298,6 +298,18 @@ func build(t *TV) (reflect.Value, bool) {
 		if t.EI == 0 {
 			if len(vals) == 0 {
 				et = reflect.TypeOf(int(0))
+				switch t.K { // an empty or nil typed list names its element type
+				case "str":
+					et = reflect.TypeOf("")
+				case "bool":
+					et = reflect.TypeOf(false)
+				case "f64":
+					et = reflect.TypeOf(float64(0))
+				case "dec":
+					et = reflect.TypeOf(decimal.Decimal{})
+				case "int64":
+					et = reflect.TypeOf(int64(0))
+				}
 			} else {
 				et = vals[0].Type()
 			}
